@@ -305,6 +305,9 @@ var purityCalls = []pcall{
 	parseCall("ParseQuery", "SELECT o.order, o.desc, o.select, o.1 FROM o"),
 	parseCall("ParseQuery", "select x from t order by x desc limit 1 offset 2"),
 	parseCall("ParseQuery", "SELECT offset, value FROM `order` AS `select`"),
+	// the same reserved word as a quoted identifier in two letter cases (memoised quoting must keep each spelling)
+	parseCall("ParseExpr", "t.`Hash` + `Hash`"),
+	parseCall("ParseExpr", "t.`HASH` + `hash`"),
 	// two different inputs failing in the same lexer error path; an unsupported statement form
 	parseCall("ParseExpr", "1 + /* never closed"),
 	parseCall("ParseQuery", "SELECT 1\n  /* also never closed"),
